@@ -532,14 +532,23 @@ class XmlDocument(SubXmlBase):
                     # the declared type spelled out: nothing to substitute.
                     newclass = cls
 
-                elif not issubclass(_strip_customizations(newclass),
+                elif issubclass(cls, Array) or \
+                        not issubclass(_strip_customizations(newclass),
                                                   _strip_customizations(cls)):
                     # xsi:type can only select a type derived from the
                     # declared one. anything else would hand a value of an
-                    # unrelated type to user code.
+                    # unrelated type to user code. array types don't derive
+                    # from one another: all of them are customized Arrays.
                     logger.error("xsi:type '%s' is not derived from %r",
                                                                  xsi_type, cls)
                     raise ValidationError(xsi_type)
+
+                elif not issubclass(cls, ComplexModelBase):
+                    # a derived simple type only restricts the value space
+                    # of the declared one (e.g. uuid for string): the value
+                    # is still read as the declared type, whose native type
+                    # is what user code expects.
+                    newclass = cls
 
                 cls = newclass
                 logger.debug("xsi:type '%s' overrides %r to %r", xsi_type,
